@@ -53,12 +53,14 @@ type cluster struct {
 	repls  map[uint64]map[uint64]*repl // leader -> follower -> state (for the leader's current term)
 	epoch  map[uint64]uint64           // leader -> term of the repl state
 	voted  map[string]bool             // election/voter responses delivered
+	parts  map[uint64]bool             // isolated nodes
 	events []string
 
 	// ledgers
 	leaders   map[uint64]uint64 // term -> leader id
 	entries   map[entryKey]entryVal
 	committed map[uint64]entryKey // index -> (index, term) known committed
+	seenTerm  map[uint64]uint64   // index -> current term of the node on which it was first seen committed (>= the committing leader's term)
 	applied   []string            // longest applied sequence seen
 	tasks     map[string]string   // "<node>/<task>" -> payload of update tasks
 	rejected  map[string]bool     // payloads definitively rejected
@@ -71,8 +73,8 @@ func (c *cluster) digest(id uint64) raft.VNode { return c.nodes[id].Node.Digest(
 
 func newCluster(rng *rand.Rand, d *harness.Driver, st *nodesim.Stats, n int, seed int64) (*cluster, error) {
 	c := &cluster{rng: rng, d: d, st: st, seed: seed, nodes: map[uint64]*nodesim.World{}, up: map[uint64]bool{},
-		repls: map[uint64]map[uint64]*repl{}, epoch: map[uint64]uint64{}, voted: map[string]bool{},
-		leaders: map[uint64]uint64{}, entries: map[entryKey]entryVal{}, committed: map[uint64]entryKey{},
+		repls: map[uint64]map[uint64]*repl{}, epoch: map[uint64]uint64{}, voted: map[string]bool{}, parts: map[uint64]bool{},
+		leaders: map[uint64]uint64{}, entries: map[entryKey]entryVal{}, committed: map[uint64]entryKey{}, seenTerm: map[uint64]uint64{},
 		tasks: map[string]string{}, rejected: map[string]bool{}}
 	for i := 1; i <= n; i++ {
 		id := uint64(i)
@@ -186,7 +188,11 @@ func (c *cluster) purgeVotes(from uint64, term uint64) {
 	out := c.net[:0:0]
 	for _, m := range c.net {
 		if (m.Kind == "voteReq" || m.Kind == "voteResp") && m.Epoch < term && (from == 0 || m.From == from || m.To == from) {
-			continue
+			// late replies to an earlier election round of a node that is still campaigning stay in flight
+			// half of the time: the candidate must not count them in its new round
+			if !(from != 0 && m.Kind == "voteResp" && m.To == from && c.rng.Intn(2) == 0) {
+				continue
+			}
 		}
 		out = append(out, m)
 	}
@@ -256,6 +262,10 @@ func (c *cluster) deliver(i int, consume bool) bool {
 		if !c.step(m.To, m.Op) {
 			return false
 		}
+		if m.Kind == "tnReq" && c.rng.Intn(3) == 0 && len(c.parts) < (len(c.ids)-1)/2 {
+			// the transfer target is cut off right after it was told to campaign: its vote requests will be late
+			c.parts[m.To] = true
+		}
 		d := c.digest(m.To)
 		if d.RpcReply != nil {
 			rk := map[string]string{"voteReq": "voteResp", "appReq": "appResp", "instReq": "instResp", "tnReq": "tnResp"}[m.Kind]
@@ -265,9 +275,11 @@ func (c *cluster) deliver(i int, consume bool) bool {
 	case "voteResp":
 		d := c.digest(m.To)
 		key := fmt.Sprintf("%d/%d/%d", m.To, m.Epoch, m.From)
-		if d.Role == "candidate" && d.Term == m.Epoch && !c.voted[key] {
+		// a reply reaches the candidate over the channel of the election that asked (m.Epoch), also when
+		// the candidate has moved on to a later election round in the meantime
+		if d.Role == "candidate" && d.Term >= m.Epoch && !c.voted[key] {
 			c.voted[key] = true
-			return c.step(m.To, nodesim.Op{Kind: "voteResult", Src: m.From, Term: m.Resp.Term, Result: m.Resp.Result})
+			return c.step(m.To, nodesim.Op{Kind: "voteResult", Src: m.From, Term: m.Resp.Term, Result: m.Resp.Result, Elect: m.Epoch})
 		}
 	case "appResp", "instResp":
 		d := c.digest(m.To)
@@ -387,8 +399,11 @@ func (c *cluster) checkGlobal(touched uint64) {
 		for _, e := range d.Log.Entries {
 			if e.Index <= d.CommitIndex {
 				if old, ok := c.committed[e.Index]; ok && old.term != e.Term {
-					c.fail("C02", fmt.Sprintf("index %d committed with term %d and with term %d", e.Index, old.term, e.Term))
+					c.fail("C02/C03", fmt.Sprintf("index %d committed with term %d and with term %d", e.Index, old.term, e.Term))
 					return
+				}
+				if _, ok := c.committed[e.Index]; !ok {
+					c.seenTerm[e.Index] = d.Term
 				}
 				c.committed[e.Index] = entryKey{e.Index, e.Term}
 			}
@@ -397,8 +412,9 @@ func (c *cluster) checkGlobal(touched uint64) {
 	for id, d := range ds {
 		for _, e := range d.Log.Entries {
 			if ck, ok := c.committed[e.Index]; ok && ck.term != e.Term {
-				// a different entry at a committed index: allowed only while not yet overwritten on a stale follower
-				if d.Role == "leader" {
+				// a different entry at a committed index: allowed while not yet overwritten on a stale follower
+				// or on an isolated leader of an OLDER term; a leader of a later term must hold the committed one
+				if d.Role == "leader" && d.Term > c.seenTerm[e.Index] {
 					c.fail("C02", fmt.Sprintf("leader %d of term %d holds (%d,%d) but (%d,%d) is committed", id, d.Term, e.Index, e.Term, ck.index, ck.term))
 					return
 				}
@@ -406,6 +422,9 @@ func (c *cluster) checkGlobal(touched uint64) {
 		}
 		if d.Role == "leader" && d.Closed == "" {
 			for idx, ck := range c.committed {
+				if d.Term <= c.seenTerm[idx] {
+					continue // not a LATER leader
+				}
 				if idx > d.LastLogIndex {
 					c.fail("C02", fmt.Sprintf("leader %d of term %d lacks committed index %d (its log ends at %d)", id, d.Term, idx, d.LastLogIndex))
 					return
@@ -579,7 +598,7 @@ func (c *cluster) run(nevents int) {
 			}
 		}
 	}
-	parts := map[uint64]bool{} // isolated nodes
+	parts := c.parts // isolated nodes
 	for ev := 0; ev < nevents && c.bad == nil; ev++ {
 		alive := []uint64{}
 		for _, id := range c.ids {
@@ -594,7 +613,7 @@ func (c *cluster) run(nevents int) {
 		// alternate calm phases (mostly delivery and replication) and stormy phases
 		storm := (ev/150)%4 == 3
 		r := rng.Intn(1000)
-		tmo, lose, rst, prt := 3, 4, 2, 2
+		tmo, lose, rst, prt := 3, 4, 2, 4
 		if storm {
 			tmo, lose, rst, prt = 45, 50, 20, 20
 		}
@@ -622,13 +641,23 @@ func (c *cluster) run(nevents int) {
 			c.net = append(c.net[:i:i], c.net[i+1:]...) // lost
 		case r < 760:
 			ls := c.leaderIDs()
-			if len(ls) == 0 {
-				// nobody leads: once the vote traffic has drained somebody times out
+			reach := 0
+			for _, l := range ls {
+				if !parts[l] {
+					reach++
+				}
+			}
+			if reach == 0 {
+				// nobody leads the connected part: once the vote traffic has drained somebody there times out
+				// (an isolated leader keeps leading its side and keeps accepting entries)
 				if c.voteTraffic() && rng.Intn(8) != 0 {
 					continue
 				}
 				id := alive[rng.Intn(len(alive))]
 				if parts[id] && rng.Intn(3) != 0 {
+					continue
+				}
+				if d := c.digest(id); d.Role == "leader" {
 					continue
 				}
 				if !c.step(id, nodesim.Op{Kind: "timeout"}) {
@@ -713,7 +742,7 @@ func (c *cluster) run(nevents int) {
 			if !c.step(l, nodesim.Op{Kind: "changeConfig", Task: c.nodes[l].NextTask(), Config: &cc}) {
 				return
 			}
-		case r < 985:
+		case r < 989:
 			ls := c.leaderIDs()
 			if len(ls) == 0 {
 				continue
@@ -723,12 +752,32 @@ func (c *cluster) run(nevents int) {
 			if len(d.Ldr.Repls) == 0 {
 				continue
 			}
+			if d.Ldr.Transfer.Active {
+				// a transfer is running: its timers fire (the target may be cut off, the new term may not show up)
+				if rng.Intn(4) != 0 {
+					continue
+				}
+				op := nodesim.Op{Kind: "transferTimeout"}
+				if d.Ldr.Transfer.NewTermTimer {
+					op = nodesim.Op{Kind: "newTermTimeout"}
+				}
+				if !c.step(l, op) {
+					return
+				}
+				continue
+			}
 			tgt := d.Ldr.Repls[rng.Intn(len(d.Ldr.Repls))].ID
+			if rng.Intn(3) == 0 {
+				tgt = 0
+			}
 			if !c.step(l, nodesim.Op{Kind: "transfer", Task: c.nodes[l].NextTask(), Target: tgt}) {
 				return
 			}
-		case r < 985+prt:
+		case r < 989+prt:
 			id := c.ids[rng.Intn(len(c.ids))]
+			if ls := c.leaderIDs(); len(ls) > 0 && rng.Intn(2) == 0 {
+				id = ls[rng.Intn(len(ls))] // isolating a leader is what makes logs diverge
+			}
 			if parts[id] {
 				delete(parts, id)
 			} else if len(parts) < (len(c.ids)-1)/2 {
@@ -859,7 +908,7 @@ func main() {
 	}
 	rep := &harness.Report{
 		Engine: "clustersim", Seed: *seed, Tier: *tier, Evaluations: total.Steps, DistinctNontrivial: len(total.Distinct),
-		Rule: "each evaluation is one step of one real node inside a 3-5 node cluster scheduled by the harness (delivery, duplication, loss, partition, crash/restart, client batches, snapshots, membership changes, transfer), validated against Raft.Node.step; after every event the cluster predicates (one leader per term, log matching, committed entries stable and held by every leader, applied sequences prefix-compatible, commit durable on a majority, client results) are evaluated on the real digests; distinctness as in nodediff",
+		Rule:      "each evaluation is one step of one real node inside a 3-5 node cluster scheduled by the harness (delivery, duplication, loss, partition, crash/restart, client batches, snapshots, membership changes, transfer), validated against Raft.Node.step; after every event the cluster predicates (one leader per term, log matching, committed entries stable and held by every leader, applied sequences prefix-compatible, commit durable on a majority, client results) are evaluated on the real digests; distinctness as in nodediff",
 		Histogram: total.Hist, Samples: total.Samples, WallS: time.Since(start).Seconds(),
 		Extra: map[string]interface{}{"schedules": nruns, "events_per_schedule": nev, "global_checks": total.MonitorChecks},
 	}
